@@ -293,6 +293,9 @@ func (p *TracerProvider) Shutdown(ctx context.Context) error {
 	for _, sps := range p.getSpanProcessors() {
 		select {
 		case <-ctx.Done():
+			// Not all processors were shut down: let a later Shutdown finish the job
+			// instead of reporting success without doing anything.
+			p.isShutdown.Store(false)
 			return ctx.Err()
 		default:
 		}
